@@ -188,7 +188,22 @@ def frame_check(i, op, res, before, after):
     if rejected:
         return out
     if name in ("BInsert", "BRemove"):
-        return out        # structure changes: covered by the naming rule and the model correspondence
+        # every other segment keeps its function, arguments, duration and segment-bound markers
+        def recs(d):
+            sg = segs_of(d)
+            return [(x["function"], repr(x["durations"]), repr(x["arguments"]), repr(tuple(d["marker1_rel"][k])), repr(tuple(d["marker2_rel"][k])))
+                    for k, x in enumerate(sg) if k < len(d["marker1_rel"]) and k < len(d["marker2_rel"])]
+        rb, ra = recs(before), recs(after)
+        big, small = (ra, rb) if name == "BInsert" else (rb, ra)
+        if len(big) != len(small) + 1:
+            return [f"op[{i}] {name} changed the number of segments from {len(rb)} to {len(ra)}"]
+        if not any(big[:k] + big[k + 1:] == small for k in range(len(big))):
+            out.append(f"op[{i}] {name} changed a segment other than the one it {'adds' if name == 'BInsert' else 'removes'} "
+                       f"(function / arguments / duration / segment-bound markers of the remaining segments must stay attached)")
+        for key in ("marker1_abs", "marker2_abs"):
+            if before[key] != after[key]:
+                out.append(f"op[{i}] {name} changed {key}")
+        return out
     if len(a) != len(b):
         return [f"op[{i}] {name} changed the number of segments"]
     target = op[2]
@@ -209,6 +224,10 @@ def frame_check(i, op, res, before, after):
                 out.append(f"op[{i}] changeArg changed a duration")
             arg, val = op[3], op[4]
             keys = list(sb["arguments"])
+            if list(sa["arguments"]) != keys:
+                out.append(f"op[{i}] changeArg({target!r},{arg!r}) changed the set of arguments of the segment: {list(sa['arguments'])}")
+            if isinstance(arg, str) and arg not in keys and sb["function"] != "waituntil":
+                out.append(f"op[{i}] changeArg accepted {arg!r}, which is not a user argument of {sb['function']} ({keys})")
             akey = arg if isinstance(arg, str) else (keys[arg] if 0 <= arg < len(keys) else None)
             for kk in keys:
                 want = val if kk == akey else sb["arguments"][kk]
